@@ -473,15 +473,18 @@ fn fn_family(props: &str, out: &mut Vec<Fail>) -> usize {
     let rets = [None, Some("u32"), Some("*mut T"), Some("Missing")];
     let ccs: [Option<&str>; 4] = [None, Some("cdecl"), Some("vectorcall"), Some("bogus")];
     let mut n = 0;
-    for a in addrs { for r in recvs { for na in 0..=2usize { for ak in 0..argtys.len().pow(na as u32) { for ret in rets { for cc in ccs { for vis in ["pub ", ""] {
+    for a in addrs { for r in recvs { for na in 0..=2usize { for ak in 0..argtys.len().pow(na as u32) { for ret in rets { for cc in ccs { for vis in ["pub ", ""] { for recv_last in [false, true] {
         if vis.is_empty() && (ak + na) % 3 != 0 { continue; }
-        let mut args: Vec<String> = vec![]; if !r.is_empty() { args.push(r.to_string()); }
+        // a receiver that is not the first argument (only tried with one or two other arguments, public, some conventions)
+        if recv_last && (r.is_empty() || na == 0 || vis.is_empty() || ret.is_some()) { continue; }
+        let mut args: Vec<String> = vec![]; if !r.is_empty() && !recv_last { args.push(r.to_string()); }
         let mut atys = vec![]; let mut kk = ak;
         for i in 0..na { let t = argtys[kk % argtys.len()]; kk /= argtys.len(); atys.push(t); args.push(format!("a{i}: {t}")); }
+        if recv_last { args.push(r.to_string()); }
         let mut attrs = vec![]; if let Some(a) = a { attrs.push(format!("address({a})")); } if let Some(c) = cc { attrs.push(format!("calling_convention(\"{c}\")")); }
         let src = format!("pub type T {{ pub x: u32, }}\nimpl T {{\n    {}{vis}fn f({}){};\n}}\n",
             if attrs.is_empty() { String::new() } else { format!("#[{}]\n    ", attrs.join(", ")) }, args.join(", "), ret.map(|t| format!(" -> {t}")).unwrap_or_default());
-        let accept = matches!(a, Some(x) if x >= 0) && !atys.contains(&"Missing") && ret != Some("Missing") && cc != Some("bogus");
+        let accept = matches!(a, Some(x) if x >= 0) && !atys.contains(&"Missing") && ret != Some("Missing") && cc != Some("bogus") && !recv_last;
         let o = build_one(&src, 8);
         n += 1;
         let mut fail = |e: String, a: String| out.push(Fail { family: "function", input: src.clone(), ptr: 8, expected: e, actual: a });
@@ -508,7 +511,7 @@ fn fn_family(props: &str, out: &mut Vec<Fail>) -> usize {
             }
         }
         if out.len() > 40 { return n; }
-    } } } } } } }
+    } } } } } } } }
     n
 }
 
@@ -529,6 +532,10 @@ fn inherit_family(props: &str, out: &mut Vec<Fail>) -> usize {
         (Some("        pub fn f(&self) -> u32;\n        pub fn g(&mut self);\n".into()), false),
         (Some("        #[calling_convention(\"cdecl\")]\n        pub fn f(&self, a: u32) -> u32;\n        pub fn g(&mut self);\n".into()), false),
         (Some("        pub fn g(&mut self);\n        pub fn f(&self, a: u32) -> u32;\n".into()), false),
+        // placeholders / internal names over a named base slot do not repeat it
+        (Some("        #[index(1)]\n        pub fn g(&mut self);\n".into()), false),
+        (Some("        pub fn _f(&self, a: u32) -> u32;\n        pub fn g(&mut self);\n".into()), false),
+        (Some("        pub fn f(&self, a: u32) -> u32;\n        pub fn _g(&mut self);\n        pub fn h(&self);\n".into()), false),
     ];
     let mut n = 0;
     for ptr in [4usize, 8] {
@@ -650,6 +657,13 @@ fn misc_family(props: &str, out: &mut Vec<Fail>) -> usize {
         case(vec![a.clone(), b.clone(), ("c", "use a::T; pub type T { pub x: u32 } pub type U { pub t: T }".into())], 4, &sz(1), out, "scoping");       // type import before own module
         case(vec![a.clone(), b.clone(), ("c", "use a::T; use b::T; pub type U { pub t: T }".into())], 4, &sz(2), out, "scoping");                        // last type import wins
         case(vec![a.clone(), b.clone(), ("c", "use b::T; use a::T; pub type U { pub t: T }".into())], 4, &sz(1), out, "scoping");
+        // repeated imports: still the LAST by-name import wins, the FIRST module import
+        case(vec![a.clone(), b.clone(), ("c", "use a::T; use b::T; use a::T; pub type U { pub t: T }".into())], 4, &sz(1), out, "scoping");
+        case(vec![a.clone(), b.clone(), ("c", "use b::T; use a::T; use b::T; pub type U { pub t: T }".into())], 4, &sz(2), out, "scoping");
+        case(vec![a.clone(), b.clone(), ("c", "use a::T; use a::T; use b::T; pub type U { pub t: T }".into())], 4, &sz(2), out, "scoping");
+        case(vec![a.clone(), b.clone(), ("c", "use a; use b; use a; pub type U { pub t: T }".into())], 4, &sz(1), out, "scoping");
+        case(vec![a.clone(), b.clone(), ("c", "use b; use a; use b; pub type U { pub t: T }".into())], 4, &sz(2), out, "scoping");
+        case(vec![a.clone(), b.clone(), ("c", "use c; use b; pub type U { pub t: T }".into())], 4, &sz(2), out, "scoping");
         case(vec![a.clone(), b.clone(), ("c", "use a; use b; pub type U { pub t: T }".into())], 4, &sz(1), out, "scoping");                              // earlier module import first
         case(vec![a.clone(), b.clone(), ("c", "use b; use a; pub type U { pub t: T }".into())], 4, &sz(2), out, "scoping");
         case(vec![a.clone(), b.clone(), ("c", "use b; use a::T; pub type U { pub t: T }".into())], 4, &sz(1), out, "scoping");                           // type import before module import
